@@ -262,12 +262,21 @@ fn mk_umad<G>(c: &UmadCase, gen: G) -> Umad<G> {
     match c.ctor { UCtor::New => Umad::new(a, d, gen), UCtor::WithEmptyRate => Umad::new_with_empty_rate(a, e, d, gen), UCtor::WithoutEmpty => Umad::new_without_empty(a, d, gen) }
 }
 
+/// C16 "repeated call histories on one operator value": use the mutator once on a clone of the genome with a
+/// throw-away generator before the compared call (about half of the cases); a stateless mutator cannot notice
+fn warm<M, G: Clone>(m: &M, g: &G, key: usize) where M: ec_core::operator::mutator::Mutator<G> {
+    if key % 2 == 0 {
+        let _ = catch_unwind(AssertUnwindSafe(|| { let mut t = SplitMix::new(0x77AB ^ key as u64); let _ = m.mutate(g.clone(), &mut t); }));
+    }
+}
+
 fn run_umad(c: &UmadCase, rng: &mut LinRng, mutant: Mutant) -> String {
     let res = catch_unwind(AssertUnwindSafe(|| -> Vec<u64> {
         match c.fl {
             UFlavour::Bits => {
                 let g = Bitstring { bits: c.parent.iter().map(|x| *x == 1).collect() };
-                mk_umad(c, ProbeBool).mutate(g, rng).unwrap().bits.iter().map(|b| *b as u64).collect()
+                let m = mk_umad(c, ProbeBool); warm(&m, &g, c.parent.len() + c.add as usize % 7);
+                m.mutate(g, rng).unwrap().bits.iter().map(|b| *b as u64).collect()
             }
             UFlavour::VectorU32 => {
                 let g: Vec<u32> = c.parent.iter().map(|x| *x as u32).collect();
@@ -276,13 +285,15 @@ fn run_umad(c: &UmadCase, rng: &mut LinRng, mutant: Mutant) -> String {
                     let empty = match c.ctor { UCtor::New => Some(f64::from_bits(c.add)), UCtor::WithEmptyRate => Some(f64::from_bits(c.empty)), UCtor::WithoutEmpty => None };
                     mutant_umad(mutant, f64::from_bits(c.add), f64::from_bits(c.del), empty, g, rng).iter().map(|x| *x as u64).collect()
                 } else {
-                    mk_umad(c, ProbeU32).mutate(Vector { genes: g }, rng).unwrap().genes.iter().map(|x| *x as u64).collect()
+                    let m = mk_umad(c, ProbeU32); let gv = Vector { genes: g }; warm(&m, &gv, c.parent.len() + c.del as usize % 5);
+                    m.mutate(gv, rng).unwrap().genes.iter().map(|x| *x as u64).collect()
                 }
             }
             UFlavour::Plushy => {
                 let g = Plushy::new(c.parent.iter().map(|x| parent_gene((*x - 1_000_001) as usize)));
                 let gg = ProbeInstr { n: c.n_instr }.into_gene_generator_with_close_probability(f32::from_bits(c.close));
-                mk_umad(c, gg).mutate(g, rng).unwrap().get_genes().iter().map(code_of).collect()
+                let m = mk_umad(c, gg); warm(&m, &g, c.parent.len() + c.n_instr);
+                m.mutate(g, rng).unwrap().get_genes().iter().map(code_of).collect()
             }
         }
     }));
